@@ -132,13 +132,17 @@ namespace sqf::parser::config
                     // Check if line comment start
                     if (len_ident_match(iter, "#line"))
                     {
-                        iter += 6;
+                        iter += 5;
+                        // one separator behind the keyword, if the input goes on
+                        if (iter != m_end) { ++iter; }
 
-                        // Read in line num
+                        // Read in line num: decimal digits up to a blank, a newline or the end of the input.
+                        // Anything else is not a line directive (the text is tokenized as it stands).
                         auto start = iter;
-                        for (; iter != m_end && *iter != '\n' && *iter != ' '; iter++);
-                        std::string str_tmp(start, iter);
-                        m_line = static_cast<size_t>(std::stoul(str_tmp));
+                        size_t line_num = 0;
+                        for (; iter != m_end && *iter >= '0' && *iter <= '9'; iter++) { line_num = line_num * 10 + static_cast<size_t>(*iter - '0'); }
+                        if (iter == start || (iter != m_end && *iter != '\n' && *iter != ' ')) { break; }
+                        m_line = line_num;
 
                         // Try skip to file
                         iter += len_match<' ', '\t'>(iter);
